@@ -155,6 +155,15 @@ int main(int argc, char** argv) {
         std::string text = ss.str();
         // a replay file wraps the plan: {"plan": {...}, ...} or is the plan itself
         if (!plan_from_replay(text, p, &err)) { fprintf(stderr, "cannot parse %s: %s\n", a.file.c_str(), err.c_str()); return 2; }
+        if (a.focus == "C19diff") {   // a plan of the chunking differential: run it under the three chunkings
+            static Plan sp; sp = p;
+            Sim* s0 = nullptr;
+            auto t0 = sim::real_ns();
+            auto vs = run_diff(sp, &s0, nullptr);
+            puts(result_line(sp.seed, *s0, vs, (sim::real_ns() - t0) / 1e6).c_str());
+            for (auto& v : vs) printf("VIOLATION-DETAIL %s %s: %s\n", v.prop.c_str(), v.oracle.c_str(), v.detail.c_str());
+            return vs.empty() ? 0 : 1;
+        }
         return run_one(p, a, a.verbose);
     }
     if (a.mode == "worker") {
